@@ -361,4 +361,127 @@ theorem runBytes_completion (c : Checker) (h : c.ok = true) :
     simp [completion, runBytes_cons, runBytes_nil, isByteValid_two, isByteValid_three,
       isByteValid_four, secondRange_goodSecond, t80]
 
+/-! ### `Checker.ok` is exactly reachability -/
+
+theorem reachable_ok (c : Checker) (h : Reachable c) : c.ok = true := by
+  induction h with
+  | init => exact ok_init
+  | step c b _ ih => exact ok_isByteValid c b ih
+
+theorem reach_of_eq {c c' : Checker} (b : UInt8) (h : Reachable c) (e : (isByteValid c b).2 = c') :
+    Reachable c' := e ▸ Reachable.step c b h
+
+theorem ok_reachable (c : Checker) (h : c.ok = true) : Reachable c := by
+  have t80 : utf8Tail 0x80 = true := by decide
+  rcases ok_cases c h with rfl | ⟨s, hs, rfl⟩ | ⟨s, hs, hc⟩ | ⟨s, hs, hc⟩
+  · exact Reachable.init
+  · obtain ⟨d1, d2, d3⟩ := lead_classes s
+    have h1 : utf8_1 s = false := by
+      cases h : utf8_1 s
+      · rfl
+      · simp [d1 h] at hs
+    exact reach_of_eq s Reachable.init (by simp [isByteValid_init, h1, hs])
+  · obtain ⟨d1, d2, d3⟩ := lead_classes s
+    have h1 : utf8_1 s = false := by
+      cases h : utf8_1 s
+      · rfl
+      · simp [d1 h] at hs
+    have h2 : inRange 0xC2 0xDF s = false := by
+      cases h : inRange 0xC2 0xDF s
+      · rfl
+      · simp [d2 h] at hs
+    have r2 : Reachable ⟨s, 3, 2⟩ :=
+      reach_of_eq s Reachable.init (by simp [isByteValid_init, h1, h2, hs])
+    rcases hc with rfl | rfl
+    · exact r2
+    · exact reach_of_eq (goodSecond s) r2 (by simp [isByteValid_two, secondRange_goodSecond])
+  · obtain ⟨d1, d2, d3⟩ := lead_classes s
+    have h1 : utf8_1 s = false := by
+      cases h : utf8_1 s
+      · rfl
+      · simp [d1 h] at hs
+    have h2 : inRange 0xC2 0xDF s = false := by
+      cases h : inRange 0xC2 0xDF s
+      · rfl
+      · simp [d2 h] at hs
+    have h3 : inRange 0xE0 0xEF s = false := by
+      cases h : inRange 0xE0 0xEF s
+      · rfl
+      · simp [d3 h] at hs
+    have r2 : Reachable ⟨s, 4, 2⟩ :=
+      reach_of_eq s Reachable.init (by simp [isByteValid_init, h1, h2, h3, hs])
+    have r3 : Reachable ⟨s, 4, 3⟩ :=
+      reach_of_eq (goodSecond s) r2 (by simp [isByteValid_two, secondRange_goodSecond])
+    rcases hc with rfl | rfl | rfl
+    · exact r2
+    · exact r3
+    · exact reach_of_eq 0x80 r3 (by simp [isByteValid_three, t80])
+
+/-! ### the Boolean spec against the grammar read as "a concatenation of characters" -/
+
+theorem wellFormed_append_char (ch rest : List UInt8) (hc : isUtf8Char ch = true)
+    (hr : wellFormed rest = true) : wellFormed (ch ++ rest) = true := by
+  rcases ch with _ | ⟨b0, _ | ⟨b1, _ | ⟨b2, _ | ⟨b3, _ | ⟨b4, r⟩⟩⟩⟩⟩ <;>
+    simp only [isUtf8Char, Bool.false_eq_true] at hc <;>
+    simp [wellFormed_cons, hc, hr]
+
+theorem wellFormed_flatten (chars : List (List UInt8))
+    (h : ∀ ch ∈ chars, isUtf8Char ch = true) : wellFormed chars.flatten = true := by
+  induction chars with
+  | nil => rfl
+  | cons ch chars ih =>
+    rw [List.flatten_cons]
+    exact wellFormed_append_char ch _ (h ch (by simp))
+      (ih (fun c hc => h c (by simp [hc])))
+
+theorem wellFormed_chars_aux : ∀ (n : Nat) (bs : List UInt8), bs.length ≤ n →
+    wellFormed bs = true →
+    ∃ chars : List (List UInt8), (∀ ch ∈ chars, isUtf8Char ch = true) ∧ bs = chars.flatten := by
+  intro n
+  induction n with
+  | zero =>
+    intro bs h _
+    have : bs = [] := List.length_eq_zero_iff.mp (by omega)
+    exact ⟨[], by simp, by simp [this]⟩
+  | succ n ih =>
+    intro bs h hw
+    rcases bs with _ | ⟨b0, rest⟩
+    · exact ⟨[], by simp, by simp⟩
+    simp only [List.length_cons] at h
+    rw [wellFormed_cons] at hw
+    have cons_char : ∀ (ch r : List UInt8), isUtf8Char ch = true → r.length ≤ n →
+        wellFormed r = true → b0 :: rest = ch ++ r →
+        ∃ chars : List (List UInt8), (∀ c ∈ chars, isUtf8Char c = true) ∧
+          b0 :: rest = chars.flatten := by
+      intro ch r hch hlen hwr e
+      obtain ⟨cs, hcs, ecs⟩ := ih r hlen hwr
+      refine ⟨ch :: cs, ?_, by rw [List.flatten_cons, ← ecs, e]⟩
+      intro c hc
+      rcases List.mem_cons.mp hc with rfl | hc
+      · exact hch
+      · exact hcs c hc
+    rcases rest with _ | ⟨b1, _ | ⟨b2, _ | ⟨b3, r3⟩⟩⟩
+    · simp only [Bool.or_false, Bool.and_eq_true] at hw
+      exact cons_char [b0] [] (by simpa [isUtf8Char] using hw.1) (by simp) rfl rfl
+    · simp only [Bool.or_false, Bool.or_eq_true, Bool.and_eq_true] at hw
+      rcases hw with hw | hw
+      · exact cons_char [b0] [b1] (by simpa [isUtf8Char] using hw.1) (by simp at h ⊢; omega) hw.2 rfl
+      · exact cons_char [b0, b1] [] (by simpa [isUtf8Char] using hw.1) (by simp) rfl rfl
+    · simp only [Bool.or_false, Bool.or_eq_true, Bool.and_eq_true] at hw
+      rcases hw with hw | hw | hw
+      · exact cons_char [b0] [b1, b2] (by simpa [isUtf8Char] using hw.1) (by simp at h ⊢; omega) hw.2 rfl
+      · exact cons_char [b0, b1] [b2] (by simpa [isUtf8Char] using hw.1) (by simp at h ⊢; omega) hw.2 rfl
+      · exact cons_char [b0, b1, b2] [] (by simpa [isUtf8Char] using hw.1) (by simp) rfl rfl
+    · simp only [Bool.or_eq_true, Bool.and_eq_true] at hw
+      simp only [List.length_cons] at h
+      rcases hw with hw | hw | hw | hw
+      · exact cons_char [b0] (b1 :: b2 :: b3 :: r3) (by simpa [isUtf8Char] using hw.1)
+          (by simp only [List.length_cons]; omega) hw.2 rfl
+      · exact cons_char [b0, b1] (b2 :: b3 :: r3) (by simpa [isUtf8Char] using hw.1)
+          (by simp only [List.length_cons]; omega) hw.2 rfl
+      · exact cons_char [b0, b1, b2] (b3 :: r3) (by simpa [isUtf8Char] using hw.1)
+          (by simp only [List.length_cons]; omega) hw.2 rfl
+      · exact cons_char [b0, b1, b2, b3] r3 (by simpa [isUtf8Char] using hw.1)
+          (by omega) hw.2 rfl
+
 end Cjet.Utf8
